@@ -83,19 +83,26 @@ static u32 model_hlen(const L& l) {
 }
 static u32 ext_struct_size(const L& l) { u32 n = 4; for (auto& t : l.tl) n += 4 + (u32)t.d.size(); return n; }
 static bool has_ext(const L& l) { return ((l.k == ICMP4) || (l.k == ICMP6K && !nd_type(l.v[0]))) && !l.tl.empty(); }
-// fills off/hlen/trl/end, returns total size
-static u32 model(Spec& s) {
+// fills off/hlen/trl/end, returns total size. Header sizes fix every offset; trailers (padding, extension structures, FCS) fix the sizes.
+// RFC 4884 allows two encodings of an error message without extension structure (length attribute 0 and no padding, or length attribute
+// n and the original datagram zero-padded to n units): which one was chosen is read from the length octet on the wire (y), and the
+// checker then demands that the octet and the bytes present agree.
+static u32 model(Spec& s, const Bytes* y = nullptr) {
     size_t n = s.ls.size(); std::vector<u32> sz(n + 1, 0);
+    { u32 off = 0; for (size_t i = 0; i < n; ++i) { L& l = s.ls[i]; l.hlen = model_hlen(l); l.off = off; off += l.hlen; } }
     for (size_t i = n; i-- > 0;) {
-        L& l = s.ls[i]; l.hlen = model_hlen(l); u32 inner = sz[i + 1]; l.trl = 0;
+        L& l = s.ls[i]; u32 inner = sz[i + 1]; l.trl = 0;
         if (l.k == ETH) l.trl = inner + 14 < 60 ? 60 - 14 - inner : 0;
         else if (l.k == VLAN && l.v[3]) l.trl = inner + 4 < 50 ? 50 - 4 - inner : 0;      // libtins' 802.1Q padding rule (64-byte tagged minimum incl. FCS)
         else if (has_ext(l)) { l.trl = ext_struct_size(l); if (i + 1 < n) { u32 p = pad_to(inner, l.k == ICMP4 ? 4 : 8); if (p < 128) p = 128; l.trl += p - inner; } }
+        else if (y && i + 1 < n && ((l.k == ICMP4 && icmp4_ext_ok(l.v[0])) || (l.k == ICMP6K && l.v[0] == 3))) {
+            u32 unit = l.k == ICMP4 ? 4 : 8, lp = l.off + (l.k == ICMP4 ? 5 : 4); u32 lf = lp < y->size() ? (*y)[lp] : 0;
+            if (lf && lf * unit >= inner && lf * unit - inner < unit) l.trl = lf * unit - inner;
+        }
         else if (l.k == RTAP && (l.v[0] & 0x10)) l.trl = 4;
         sz[i] = l.hlen + inner + l.trl;
     }
-    u32 off = 0;
-    for (size_t i = 0; i < n; ++i) { L& l = s.ls[i]; l.off = off; l.end = off + sz[i]; off += l.hlen; }
+    for (size_t i = 0; i < n; ++i) { L& l = s.ls[i]; l.end = l.off + sz[i]; }
     return n ? sz[0] : 0;
 }
 
@@ -247,7 +254,11 @@ struct Ck {
         else if (lf) {
             std::string disc = "rfc4884-no-ext"; if (inner % unit) disc += "-unpadded"; else if (v6 && inner < 128) disc += "-below128";
             expect("length", l.k, disc, (u64)body + lf * unit, l.end, "RFC 4884 length field must equal the number of bytes of the original datagram field that follow");
+            zeros(l.k, "rfc4884-no-ext", body + inner, l.end, "padding of the original datagram");
+            df.push_back({v6 ? l.off + 4 : l.off + 5, 1, std::string(KN[l.k]) + "-rfc4884-length", 0});
+            if (inner % unit) cnt("rfc4884-no-ext-padded");
         }
+        else if (l.v[4] && inner) expect("length", l.k, "rfc4884-requested", 0, 1, "length field requested (use_length_field) but zero on the wire");
     }
     void check_rtap(size_t i);
     void layer(size_t i);
@@ -456,14 +467,14 @@ struct PredGen {
             if (last) return; const L& c = s.ls[i + 1];
             if (l.v[5] == 0 && (c.k == TCPK || c.k == UDPK || c.k == ICMP4)) l4(i + 1, false, 0);
             else if (c.k == IP4) { tf("ipip-inner-src", "ip[" + N(l.hlen + 12) + ":4] = 0x" + hex(c.a1), "ip[" + N(l.hlen + 12) + ":4] = 0x" + hex(flip(c.a1))); num("ipip-inner-len", "ip[" + N(l.hlen + 2) + ":2]", c.end - c.off); }
-            else if (c.k == AHK) { int q = ipproto_of(s, i + 2); if (q >= 0 && s.dlt != DLT_IEEE802_11_RADIO) tf("ip-protochain", "ip protochain " + N(q), "ip protochain 132"); num("ah-len", "ip[" + N(l.hlen + 1) + "]", c.hlen / 4 - 2); }
+            else if (c.k == AHK) { int q = ipproto_of(s, i + 2); if (q >= 0 && q != 51 && s.dlt != DLT_IEEE802_11_RADIO && y[c.off] != 51) tf("ip-protochain", "ip protochain " + N(q), "ip protochain 132"); num("ah-len", "ip[" + N(l.hlen + 1) + "]", c.hlen / 4 - 2); }
         }
         else if (l.k == IP6K) {
             tf("ip6", "ip6", "ip"); tf("ip6-src", "ip6 src " + s_ip6(l.a1), "ip6 src " + s_ip6(flip(l.a1))); tf("ip6-dst", "ip6 dst " + s_ip6(l.a2), "ip6 dst " + s_ip6(flip(l.a2)));
             num("ip6-hlim", "ip6[7]", l.v[2]); num("ip6-plen", "ip6[4:2]", l.end - l.off - 40);
             int p = ipproto_of(s, i + 1); if (last) return;
             if (l.tl.empty()) { if (p >= 0) { tf("ip6-proto", "ip6 proto " + N(p), "ip6 proto " + N(p == 6 ? 17 : 6)); l4(i + 1, true, 40); } }
-            else { num("ip6-nh0", "ip6[6]", l.tl[0].t); if (p >= 0 && s.kf.empty()) { if (s.dlt != DLT_IEEE802_11_RADIO) tf("ip6-protochain", "ip6 protochain " + N(p), "ip6 protochain 132"); /* libpcap: no protochain behind variable-length link headers */ if (l.hlen < 200) l4r(i + 1, l.hlen); } }
+            else { num("ip6-nh0", "ip6[6]", l.tl[0].t); if (p >= 0 && s.kf.empty()) { if (s.dlt != DLT_IEEE802_11_RADIO) tf("ip6-protochain", "ip6 protochain " + N(p), p == 51 ? "" : "ip6 protochain 132");   /* libpcap 1.10 mis-steps behind an AH (X = AH length, not += ) and can loop forever: stop at the AH */ /* libpcap: no protochain behind variable-length link headers */ if (l.hlen < 200) l4r(i + 1, l.hlen); } }
         }
     }
     void l4r(size_t i, u32 base) {   // raw offsets only (behind extension headers)
@@ -585,7 +596,6 @@ static void g_icmp4(Rng& r, Spec& s) {
     switch (r.below(6)) { case 0: len = 28; break; case 1: len = 120 + r.below(17); break; case 2: len = 4 * r.below(137); break; default: len = r.below(549); }
     if (inner_ip) { len = len < 28 ? 0 : len - 28; }
     size_t inner = inner_ip ? len + 28 : len;
-    if (!ext && (l.v[4] || pad_to((u32)inner, 4) > 128) && inner % 4) { if (r.chance(1, 12)) s.kf = "icmp-rfc4884-no-ext-unpadded"; else { len += 4 - inner % 4; inner = inner_ip ? len + 28 : len; } }
     if (inner == 0 && ext) { len = 8; inner = 8; inner_ip = false; }
     s.ls.push_back(l);
     if (inner_ip) { L ip(IP4); g_ip4_fields(r, ip, false); s.ls.push_back(ip); s.ls.push_back(g_udp(r)); s.ls.push_back(raw(r, len)); }
@@ -604,7 +614,6 @@ static void g_icmp6(Rng& r, Spec& s) {
     if (c < 17) { static const u32 T[] = {1, 2, 4}; l.v[0] = T[r.below(3)]; l.v[1] = r.below(4); s.ls.push_back(l); s.ls.push_back(raw(r, 40 + r.below(400))); return; }
     l.v[0] = 3; l.v[1] = r.below(2); bool ext = r.chance(1, 2); if (ext) l.tl = g_exts(r); l.v[4] = r.chance(2, 5);
     size_t inner; switch (r.below(5)) { case 0: inner = 48; break; case 1: inner = 120 + r.below(17); break; case 2: inner = 8 * r.below(150); break; default: inner = 40 + r.below(1100); }
-    if (!ext && (l.v[4] || pad_to((u32)inner, 8) > 128)) { if (r.chance(1, 12) && (inner % 8 || inner < 128)) s.kf = inner % 8 ? "icmp6-rfc4884-no-ext-unpadded" : "icmp6-rfc4884-no-ext-below128"; else { inner = pad_to((u32)inner, 8); if (inner < 128) inner = 128; } }
     if (inner == 0 && ext) inner = 48;
     s.ls.push_back(l); L p = raw(r, inner);
     if (!ext && inner >= 132) { Bytes& b = p.raw; if (fold(ocsum(&b[128], inner - 128)) == 0xffff) b[130] ^= 0x5a; }
@@ -625,7 +634,7 @@ static void g_below_ip(Rng& r, Spec& s, bool v6, int depth) {
 static L g_vlan(Rng& r) { L l(VLAN); l.v[0] = r.chance(1, 2) ? 1 + r.below(20) : (u32)r.edgy(12); l.v[1] = r.below(8); l.v[2] = r.below(2); l.v[3] = r.chance(1, 2); l.v[4] = 0x9000 + r.below(16); l.v[5] = r.chance(1, 2); return l; }
 static void g_pppoe(Rng& r, Spec& s, bool direct) {
     L l(PPPOEK); l.v[1] = (u32)r.edgy(16);
-    if (r.chance(1, 2)) { l.v[0] = 0; size_t n = r.below(120); if (!direct) s.kf = "pppoe-session-tag"; if (r.chance(3, 4)) { l.v[3] = 1; l.v[2] = (u32)n; } else if (n) s.kf = "pppoe-session-length"; s.ls.push_back(l); if (n) s.ls.push_back(raw(r, n)); return; }
+    if (r.chance(1, 2)) { l.v[0] = 0; size_t n = r.below(120); if (!direct) s.kf = "pppoe-session-tag"; if (r.chance(1, 2)) { l.v[3] = 1; l.v[2] = r.chance(1, 2) ? (u32)n : (u32)r.below(200); } s.ls.push_back(l); if (n) s.ls.push_back(raw(r, n)); return; }
     static const u32 C[] = {0x09, 0x07, 0x19, 0x65, 0xa7}; l.v[0] = C[r.below(5)]; u32 n = r.below(5);
     for (u32 j = 0; j < n; ++j) { static const u32 T[] = {0x0101, 0x0102, 0x0103, 0x0104, 0x0203}; u32 t = T[r.below(5)]; Bytes d = r.bytes(r.below(20)); if (t != 0x0103 && t != 0x0104) for (auto& c : d) c = 'a' + c % 26; l.tl.push_back({t, d}); }
     s.ls.push_back(l);
@@ -675,7 +684,7 @@ struct Hist {
         u32 want = model(s); last_ok = false;
         if (want > 65535 || want == 0) { cnt("skipped_over_65535"); return false; }
         for (auto& l : s.ls) if (l.k == IP4 && l.end - l.off > 65535) { cnt("skipped_over_65535"); return false; }
-        try { y = p->serialize(); }
+        try { y = p->serialize(); want = model(s, &y); }
         catch (...) { violation("exception/serialize/" + current_exception_type() + (s.kf.empty() ? "" : "/kf:" + s.kf), "serialize() threw on an API-built packet [" + stage + "] :: " + show(s)); return false; }
         Ck ck(s, y, stage); bool ok = ck.run(want); df.swap(ck.df); ++steps; cnt("steps:" + stage.substr(0, stage.find(':')));
         if (y.size() == want && pcap_budget) pcap_check(s, y, r, stage, pcap_budget);
@@ -692,7 +701,6 @@ struct Hist {
         if (l.k == RAWK) {
             size_t len = frozen() ? l.raw.size() : g_len(r);
             l.raw = g_payload(r, len); guard_ext_lookalike(n - 1); set_raw(n - 1);
-            for (auto& q : s.ls) if (q.k == PPPOEK && q.v[0] == 0 && q.v[3] && q.v[2] != len) s.kf = "pppoe-session-length";
             note("payload:=" + N(len)); return true;
         }
         if (frozen()) return false;
